@@ -24,6 +24,7 @@ namespace Givaro {
     template <class Domain>
     inline typename Poly1Dom<Domain,Dense>::Rep& Poly1Dom<Domain,Dense>::axpy  (Rep& r, const Rep& a, const Rep& x, const Rep& y) const
     {
+        if (&r == &y) return this->axpyin(r,a,x); // y must survive the product
         return this->addin( this->mul(r,a,x), y );
     }
 
@@ -31,21 +32,21 @@ namespace Givaro {
     template <class Domain>
     inline typename Poly1Dom<Domain,Dense>::Rep& Poly1Dom<Domain,Dense>::axpy  (Rep& r, const Type_t& a, const Rep& x, const Rep& y) const
     {
-        typename Rep::const_iterator ix = x.begin(), iy = y.begin();
-        if (y.size() > x.size()) {
-            r.resize(y.size());
-            typename Rep::iterator ir = r.begin();
-            for( ; ix != x.end(); ++ir, ++ix, ++iy)
-                this->_domain.axpy(*ir, a, *ix, *iy);
-            for( ; ir != r.end(); ++ir, ++iy)
-                this->_domain.assign(*ir, *iy);
+        // r may be x or y: no iterator on x or y is kept across the resize of r
+        const size_t sX = x.size(), sY = y.size();
+        size_t i = 0;
+        if (sY > sX) {
+            r.resize(sY);
+            for( ; i < sX; ++i)
+                this->_domain.axpy(r[i], a, x[i], y[i]);
+            for( ; i < sY; ++i)
+                this->_domain.assign(r[i], y[i]);
         } else {
-            r.resize(x.size());
-            typename Rep::iterator ir = r.begin();
-            for( ; iy != y.end(); ++ir, ++ix, ++iy)
-                this->_domain.axpy(*ir, a, *ix, *iy);
-            for( ; ir != r.end(); ++ir, ++ix)
-                this->_domain.mul(*ir, a, *ix);
+            r.resize(sX);
+            for( ; i < sY; ++i)
+                this->_domain.axpy(r[i], a, x[i], y[i]);
+            for( ; i < sX; ++i)
+                this->_domain.mul(r[i], a, x[i]);
         }
         return r;
     }
@@ -115,10 +116,12 @@ namespace Givaro {
     // -- axmy: r <- a * x - y
     template <class Domain>
     inline typename Poly1Dom<Domain,Dense>::Rep& Poly1Dom<Domain,Dense>::axmy  (Rep& r, const Rep& a, const Rep& x, const Rep& y) const{
+        if (&r == &y) return this->axmyin(r,a,x); // y must survive the product
         return this->subin(this->mul(r, a, x),y);
     }
     template <class Domain>
     inline typename Poly1Dom<Domain,Dense>::Rep& Poly1Dom<Domain,Dense>::axmy  (Rep& r, const Type_t& a, const Rep& x, const Rep& y) const{
+        if (&r == &y) return this->axmyin(r,a,x); // y must survive the product
         return this->subin(this->mul(r, a, x),y);
     }
     // -- axmyin: r <- a * x - r
